@@ -364,4 +364,11 @@ def wsum : List Rat → List Pt → Rat
 def InHull (vs : List Pt) (X : Pt) : Prop :=
   ∃ ws : List Rat, (∀ w ∈ ws, 0 ≤ w) ∧ wsum ws vs = 1 ∧ X = comb ws vs
 
+/-- decidable form of `ConvexCCW` (evaluated by the driver on every case) -/
+def convexCCWb (poly : List Pt) : Bool :=
+  poly.all (fun V => (edges poly).all (fun e => decide (0 ≤ leftOf e.1 e.2 V)))
+
+/-- the vertex order in which a convex polygon is counter-clockwise -/
+def ccwOrder (poly : List Pt) : List Pt := if convexCCWb poly then poly else poly.reverse
+
 end PorepyVerif.C44
